@@ -15,7 +15,7 @@ LEVEL = "exploration"
 TECHNIQUE = "bounded-exhaustive enumeration of all DAG pipelines up to N functions x listing orders x outputs x argument cuts, against a reference evaluator"
 RULE = ("G-DAG: every pipeline of N functions over roots {x,y} (each function takes 0..2 of roots/earlier outputs, 1 or 2 outputs; "
         "x/y-symmetric duplicates merged) x one decoration at a time (signature default, PipeFunc default, bound root, bound upstream, "
-        "renamed parameter, renamed output, shared default; N<=2 also rename COMBINATIONS whose original names collide with new names: a swap p<->q or chain p<-q<-q_orig of two parameters, alone / + bound q / + signature or PipeFunc default on p, and a parameter whose original name is the function's new output name) x every listing order x every requested output (names and tuples) x every "
+        "renamed parameter, renamed output, shared default; N<=2 also rename COMBINATIONS whose original names collide with new names: a swap p<->q or chain p<-q<-q_orig of two parameters, alone / + bound q / + signature or PipeFunc default on p, and a parameter whose original name is the function's new output name); unusual parameter names (leading underscore, one name a prefix of another); a DATACLASS as the function next to a plain function sharing a parameter name, with and without a bound field x every listing order x every requested output (names and tuples) x every "
         "combination in arg_combinations (and every omission of defaulted roots) x entry points {pipeline(), run, run(full_output), "
         "func(), call_with_root_args} + surplus-keyword variants. non-trivial = distinct (pipeline, output, cut) with >= 2 functions on the dependency path")
 ASSUMPTIONS = ["reference evaluator in vmc/gen_dag.py (bound > keyword > upstream > default, memo per call)",
@@ -250,6 +250,16 @@ def specs_for(stage):
         for n in (1, 2):
             for s in gen_dag.base_specs(n):
                 yield from gen_dag.combo_decorations(s)
+    elif stage == "N2-dataclass-function":
+        # f0 is a DATACLASS (fields = parameters, field defaults = signature defaults), alone and next to a plain function that
+        # shares the parameter name y: with and without a bound value on the dataclass field that has the default
+        for bound in (None, {"y": "by"}):
+            f0 = {"name": "f0", "params": ["x", "y"], "outs": ["o0"], "dataclass": True, "sigdef": {"y": "d1" if bound is None else "dy"}}
+            if bound:
+                f0["bound"] = dict(bound)
+            yield {"funcs": [copy.deepcopy(f0)], "deco": "dataclass"}
+            yield {"funcs": [copy.deepcopy(f0), {"name": "f1", "params": ["y"], "outs": ["o1"], "sigdef": {"y": "d1"}}], "deco": "dataclass"}
+            yield {"funcs": [copy.deepcopy(f0), {"name": "f1", "params": ["o0", "y"], "outs": ["o1"], "sigdef": {"y": "d1"}}], "deco": "dataclass"}
     elif stage == "N2-special-names":
         # valid but unusual parameter names: a leading underscore, a trailing digit, one name a prefix of the other
         for a, b in (("_x", "y"), ("x", "x1"), ("_x", "_x_")):
@@ -274,9 +284,9 @@ def specs_for(stage):
         yield from gen_dag.base_specs(4, max_params=2, nouts=(1,), min_params=1)
 
 
-STAGES = {"quick": ["N1", "N2", "N2-three-output-producer", "N2-decorated", "N2-rename-combos", "N2-special-names", "N3-shared-none", "N3"],
-          "thorough": ["N1", "N2", "N2-three-output-producer", "N2-decorated", "N2-rename-combos", "N2-special-names", "N3-shared-none", "N3", "N3-decorated", "N4-single-output"]}
-CHUNK = {"N2-special-names": 9, "N2-rename-combos": 60, "N3-shared-none": 20, "N2-three-output-producer": 8, "N1": 8, "N2": 16, "N2-decorated": 40, "N3": 40, "N3-decorated": 200, "N4-single-output": 30}
+STAGES = {"quick": ["N1", "N2", "N2-three-output-producer", "N2-decorated", "N2-rename-combos", "N2-special-names", "N2-dataclass-function", "N3-shared-none", "N3"],
+          "thorough": ["N1", "N2", "N2-three-output-producer", "N2-decorated", "N2-rename-combos", "N2-special-names", "N2-dataclass-function", "N3-shared-none", "N3", "N3-decorated", "N4-single-output"]}
+CHUNK = {"N2-dataclass-function": 6, "N2-special-names": 9, "N2-rename-combos": 60, "N3-shared-none": 20, "N2-three-output-producer": 8, "N1": 8, "N2": 16, "N2-decorated": 40, "N3": 40, "N3-decorated": 200, "N4-single-output": 30}
 
 
 def plan(tier, seed):
